@@ -216,6 +216,14 @@ class Scenario(object):
         else:
             dest, destkind, mtype = BUS, "driver", 1
         order = "B" if rng.random() < 0.15 else "l"
+        if destkind == "driver" and rng.random() < 0.3:
+            # a SIGNAL addressed to the bus itself: the driver has nothing to do with it, it is not a broadcast either (it
+            # names a destination), so nobody without an eavesdrop rule may see it and nobody answers it
+            path, iface, member = rng.choice(PATHS), rng.choice(IFACES[:2]), rng.choice(MEMBERS)
+            serial, data = c.build(4, path=path, iface=iface, member=member, dest=BUS, sig=b"s", body=[tid], order=order)
+            c.seq += 1
+            t = um.Token(tid, c.view.idx, c.seq, serial, 4, 0, BUS, "driver", rnd, wire.decode(data), None, " signal-to-the-bus")
+            return data, t
         if destkind == "driver":
             live_u = self.obs.unique
             member, sig, body, expect = rng.choice([
